@@ -427,10 +427,9 @@ Proof. destruct f. reflexivity. Qed.
 Lemma same_after_copy f g :
   same_content f g -> f_feats f = f_feats g -> violations f = violations g.
 Proof.
-  intros H Hf. rewrite (file_eta f), (file_eta g).
-  unfold same_content in H.
+  intros H Hf. destruct f, g. unfold same_content in H. cbn in H, Hf.
   repeat match goal with H : _ /\ _ |- _ => destruct H as [?E H] end.
-  rewrite Hf. congruence.
+  subst. reflexivity.
 Qed.
 
 (* with the event count stored, a different storage order of the features
